@@ -591,3 +591,84 @@ def batch_passthrough(prog, caller, kernel, batch_param, precision_texts=('self.
             continue
         return 'unknown', f'`{norm(e)[:70]}`', calls[0]
     return 'ok', 'the kernel receives the batch as given (or cast to the working precision)', calls[0]
+
+
+def count_discipline(prog, f, counter_params, class_index_params=()):
+    """class counters receive one increment per (trace, word): for every `counters[...] += v` in kernel f
+       - v is the literal 1, or the sum over the trace axis of an equality mask (`(data == p).sum(0)`);
+       - every enclosing loop either runs over the traces (the counting loop), or its variable appears in the target index (distinct
+         cells), or it is pinned to its first iteration by a guard `var == 0` (the sample loop: index 0 exists whenever there is a
+         sample; any other pin, or `!=`, counts a trace several times or never)."""
+    out = []
+    pm = astutil.parents(f.node)
+    for st in ast.walk(f.node):
+        if not (isinstance(st, ast.AugAssign) and isinstance(st.op, ast.Add) and root_name(st.target) in counter_params):
+            continue
+        v = astutil.expand_locals(st.value, astutil.local_defs(f.node))
+        one = isinstance(v, ast.Constant) and v.value == 1 and not isinstance(v.value, bool)
+        mask_sum = isinstance(v, ast.Call) and norm(v.func).split('.')[-1] in ('sum', 'count_nonzero')
+        if not (one or mask_sum):
+            out.append(F('bad', f, st, f'`{norm(st)[:60]}` adds `{norm(v)[:30]}` to a class counter: a trace counts for 1'))
+            continue
+        idx_names = {n.id for n in ast.walk(st.target) if isinstance(n, ast.Name)}
+        # values derived from loop variables used in the index (data_value = data[trace_idx, data_idx])
+        defs = {}
+        for a in ast.walk(f.node):
+            if isinstance(a, ast.Assign) and len(a.targets) == 1 and isinstance(a.targets[0], ast.Name):
+                defs.setdefault(a.targets[0].id, set()).update(n.id for n in ast.walk(a.value) if isinstance(n, ast.Name))
+        closure = set(idx_names)
+        for _ in range(3):
+            for nm in list(closure):
+                closure |= defs.get(nm, set())
+        guards = astutil.guards_ext(st, pm, f.node)
+        problems = []
+        for lp in astutil.loops(st, pm, f.node):
+            if not isinstance(lp, ast.For) or not isinstance(lp.target, ast.Name):
+                continue
+            var = lp.target.id
+            it = norm(lp.iter).replace(' ', '')
+            over_traces = it.endswith('.shape[0])') or it.startswith('range(len(')
+            in_index = var in closure
+            if over_traces and one:
+                continue
+            if in_index and not over_traces:
+                continue
+            pins = [(t, pol) for t, pol in guards if isinstance(t, ast.Compare) and len(t.ops) == 1 and isinstance(t.left, ast.Name) and t.left.id == var]
+            ok_pin = any(pol and isinstance(t.ops[0], ast.Eq) and const_value(t.comparators[0]) == 0 for t, pol in pins)
+            if not ok_pin:
+                how = f'pinned by `{norm(pins[0][0])}`' if pins else 'not pinned to one iteration'
+                problems.append(f'the loop over `{var}` ({norm(lp.iter)[:30]}) is {how}: the counter is incremented once per iteration of that loop that passes, not once per trace '
+                                f'(only `{var} == 0` is an iteration that always exists and is unique)')
+        if problems:
+            out.append(F('bad', f, st, f'`{norm(st)[:50]}`: ' + problems[0]))
+        else:
+            out.append(F('ok', f, st, f'`{norm(st)[:50]}`: one increment per trace and word'))
+    return out
+
+
+def membership_comparisons(prog, f, maybe_params):
+    """a lookup output is compared with a class position only for equality (class membership) and with the sentinel -1 only by
+    == / != ; an inequality (`data != p`, `data <= p`) selects the complement / a range of classes"""
+    out = []
+    if not maybe_params:
+        return out
+    loopvars = {lp.target.id: lp for lp in ast.walk(f.node) if isinstance(lp, ast.For) and isinstance(lp.target, ast.Name)}
+    names = set(maybe_params)
+    for a in ast.walk(f.node):
+        if isinstance(a, ast.Assign) and len(a.targets) == 1 and isinstance(a.targets[0], ast.Name) and root_name(a.value) in maybe_params and isinstance(a.value, ast.Subscript):
+            names.add(a.targets[0].id)
+    for c in ast.walk(f.node):
+        if not (isinstance(c, ast.Compare) and len(c.ops) == 1):
+            continue
+        l, r = c.left, c.comparators[0]
+        sides = [root_name(x) if isinstance(x, (ast.Subscript, ast.Name)) else None for x in (l, r)]
+        if not any(s in names for s in sides):
+            continue
+        other = r if sides[0] in names else l
+        if isinstance(other, ast.Name) and other.id in loopvars:
+            if isinstance(c.ops[0], ast.Eq):
+                out.append(F('ok', f, c, f'`{norm(c)}`: class membership by equality with the class position'))
+            else:
+                out.append(F('bad', f, c, f'`{norm(c)}` compares the class index of a trace with the class position `{other.id}` by {type(c.ops[0]).__name__}: '
+                                          f'the traces selected are not those of class `{other.id}`'))
+    return out
